@@ -6,6 +6,7 @@ no type reachable from &Engine admits mutation.
 """
 from ..expr import ExprBuilder, walk, show, success_value
 from ..mir import callee_name
+from .. import paths
 from ..model import classify
 from . import common as cm
 
@@ -272,6 +273,7 @@ def run(ctx):
     ctx.rule("C03-R7", "every Condition / InterporationWeight setter stores a value independent of the previous state and writes exactly one field")
     ctx.rule("C03-R8", "Clone impls of Engine, Condition, VoiceSet, InterporationWeight, Weights are derived (field-wise)")
     ctx.rule("C03-R9", "no hidden condition state: every setting a setter writes is returned verbatim by its getter, so conditions with equal getter values are equal (a history like `never set` vs `set to the default` cannot be told apart by synthesis)")
+    ctx.rule("C03-R10", "Condition::load_model is history-free: the getter-less fields it derives from the voice (stage, use_log_gain) are written on every successful path")
     ctx.rule("controls", "each zero-count rule flags its deliberate instance in /verif/fixtures/controls")
 
     # ---- positive controls first
@@ -445,6 +447,23 @@ def run(ctx):
             else:
                 ctx.ok("C03-R7", "%s writes only %s, value independent of previous state" % (path, fields), b.loc())
 
+        # R10: load_model is history-free too.  The fields it derives from the voice and that no
+        # setter / getter exposes (stage <- GAMMA, use_log_gain <- LN_GAIN) are written on *every*
+        # successful path - a store that only happens when the option key is present leaves what an
+        # earlier voice put there, and two conditions with equal getter values synthesize differently
+        lm = cm.body_or_fail(ctx, p, "C03-R10", "engine::Condition::load_model")
+        if lm is not None:
+            from ..expr import stores as _stores
+            leb = ExprBuilder(lm)
+            oks = [bb_ for bb_, e_, it_ in paths.return_exprs(lm, leb) if paths.is_ok(e_)]
+            for fld in ("stage", "use_log_gain"):
+                sbs = [bb_ for bb_, i_, st_, tgt_, root_, chain_, val_ in _stores(lm, leb) if chain_ == [fld] and root_[0] == "arg" and root_[1] == 1]
+                # is there a path from entry to an Ok return that passes none of the stores?
+                skipped = any(lm.can_reach(0, r_, avoid=set(sbs)) for r_ in oks) if oks else True
+                if sbs and not skipped:
+                    ctx.ok("C03-R10", "load_model writes `%s` on every successful path (%d store sites)" % (fld, len(sbs)), lm.loc())
+                else:
+                    ctx.fail("C03-R10", lm.path, "field " + fld, "load_model can return Ok without writing `%s` (it is stored only when the voice's option line has the key): the value an earlier load_model left there survives, no getter shows it, and the waveform depends on the load history" % fld, lm.loc())
         # the engine is its two public parts and nothing else: a private field would be a value
         # derived at construction that `engine.voices = ..` / `engine.condition = ..` cannot keep
         # current (seed C03k: a cached low-pass order)
